@@ -485,3 +485,30 @@ def _m_object_setattr(interp, obj, name, value):
 
 _m_object_setattr.always = False
 BUILTIN_MODELS[object.__setattr__] = _m_object_setattr
+
+
+# ---------------------------------------------------------------------------------------------
+# lxml: an attribute set to symbolic text is kept as a ghost value of the element (lxml itself stores a marker)
+SYM_ATTR_MARKER = u'⟪symbolic⟫'
+
+
+def _install_lxml():
+    try:
+        from lxml import etree
+    except ImportError:
+        return
+
+    @_method(etree._Element, 'set')
+    def m_elt_set(interp, elt, key, value):
+        if isinstance(key, (Sym, FmtStr)):
+            raise Unsupported("attribute with a symbolic name")
+        if isinstance(value, (Sym, FmtStr)):
+            interp.ghost_attrs.setdefault(id(elt), (elt, {}))[1][key] = value
+            return elt.set(key, SYM_ATTR_MARKER)
+        g = interp.ghost_attrs.get(id(elt))
+        if g is not None:
+            g[1].pop(key, None)
+        return elt.set(key, value)
+
+
+_install_lxml()
